@@ -8,6 +8,7 @@ Driver for C08: one operation per line on stdin, one result per line on stdout.
   nest <entry> <hex> <count> <hex> <count> ...   the entry point on the segments repeated and concatenated
   drift <entry> <hex> <count> ...   same as nest (the harness additionally requires jsonx.tooDeep)
   signs <entry> <hex> <count> ...   same as nest (runs of unary signs)
+  blank <entry> <hex> <count> ...   same as nest (runs of blank lines)
   facts             the nesting limit the model runs with
   lex <hex>         the token stream the jsonx parser reads (types, positions) and the lexer's errors
 
@@ -91,6 +92,10 @@ def step (_ : Unit) (line : String) : Unit × String :=
       | none => "bad-op"
       | some bs => runOp op bs
     | "nest" :: op :: segs =>
+      match segments segs with
+      | none => "bad-op"
+      | some bs => runOp op bs
+    | "blank" :: op :: segs =>
       match segments segs with
       | none => "bad-op"
       | some bs => runOp op bs
